@@ -21,36 +21,49 @@ def model_check(wd, out):
 
 
 def history(wd, rnd, n_hist, quick):
-    """single-leaf writes, appends and deletions (batch shapes belong to C06/C08): behaviours of Tree.tla from TLC
-    -simulate, stretched over the positions of the real tree, with members registered and proving in between"""
-    sc0, nb = tree.gen_sim(wd, "cfg", 3, [1, 2], 1, 0, ["set", "delete", "append"], n_hist, 10, seed() + 17)
+    """single-leaf writes, appends and deletions (batch shapes belong to C06/C08): the call SHAPES come from behaviours of
+    Tree.tla (TLC -simulate, values incl. the default leaf), stretched over the positions of the real tree; deletions are
+    aimed at existing leaves, at the leaf-count cursor, just beyond it and far beyond; members register and prove in between"""
+    sc0, nb = tree.gen_sim(wd, "cfg", 3, [0, 1, 2], 1, 0, ["set", "delete", "append"], n_hist, 14, seed() + 17)
     pos_map = [0, 1, 2, 255, (1 << 19) - 1, 1 << 19, BIG - 2, BIG - 1]
     sc = []
     members = []
     k = 0
+    nxt = 0
     for op in sc0:
         if op["c"] == "reset":
             sc.append({"c": "reset"})
             members = []
-            # two members: one in each half of the tree
-            for idx in (rnd.choice([0, 5, 255]), rnd.choice([1 << 19, BIG - 1, (1 << 19) + 77])):
+            nxt = 0
+            # two members; the second history keeps everything low so that appends and the cursor interact
+            low = (len([o for o in sc if o["c"] == "reset"]) % 2 == 0)
+            for idx in ((3, 9) if low else (rnd.choice([0, 5, 255]), rnd.choice([1 << 19, BIG - 1, (1 << 19) + 77]))):
                 s = {"k": "rnd", "s": rnd.randrange(1, 1 << 30)}
                 lim = I(rnd.choice([1, 100, 65536]))
                 sc.append({"c": "reg", "i": idx, "s": s, "lim": lim})
                 members.append((idx, s, lim))
+                nxt = max(nxt, idx + 1)
             continue
         o = dict(op)
-        if "i" in o:
-            o["i"] = pos_map[o["i"] % len(pos_map)]
-            if any(o["i"] == m[0] for m in members):
+        if op["c"] == "delete":
+            o["i"] = rnd.choice([nxt, nxt, nxt + 1, max(nxt - 1, 0), pos_map[op["i"] % len(pos_map)], BIG])
+            while any(o["i"] == m[0] for m in members):
+                o["i"] += 1
+        elif op["c"] == "set":
+            o["i"] = pos_map[o["i"] % len(pos_map)] if not low else o["i"] + 10
+            while any(o["i"] == m[0] for m in members):
                 o["i"] += 3
-        o.pop("v", None)
-        if op["c"] in ("set", "append"):
-            o["v"] = rnd.choice([1, 2, 7, 15])
+            if o["i"] < BIG:
+                nxt = max(nxt, o["i"] + 1)
+        elif op["c"] == "append":
+            if nxt < BIG:
+                nxt += 1
+        if "v" in o:
+            o["v"] = [0, 1, 2][o["v"]] if o["v"] in (0, 1, 2) else o["v"]
         sc.append(o)
         k += 1
         if k % 4 == 0:
-            sc.append({"c": "path", "i": rnd.choice([m[0] for m in members] + [0, BIG - 1, 1 << 19])})
+            sc.append({"c": "path", "i": rnd.choice([m[0] for m in members] + [0, min(nxt, BIG - 1), 1 << 19])})
         if k % (5 if quick else 3) == 0:
             idx, s, lim = rnd.choice(members)
             sc.append({"c": "prove", "s": s, "idx": idx, "lim": lim, "mid": I(0), "e": {"k": "rnd", "s": rnd.randrange(1, 1 << 30)},
@@ -73,7 +86,7 @@ def run_c17(tier, out):
         else:
             merged.append({"t": "build", "cfg": c, "res": "ok"})
             bins[c] = b
-    sc, nb = history(wd, rnd, 2 if quick else 10, quick)
+    sc, nb = history(wd, rnd, 4 if quick else 16, quick)
     sp = os.path.join(wd, "history.ndjson")
     write_ndjson(sp, sc)
     out.notes.append(f"{nb} TLC-simulated histories of single writes / appends / deletions mapped to boundary positions of the depth-20 tree, "
